@@ -83,11 +83,12 @@ Print Assumptions C04_fg_step_and_com_drift_conserve_lz.
 (* "... and, for mass and momentum, across merging collisions": C13's model of reb_collision_resolve_merge followed by
    the removal the collision loop performs (bit-exact with the library there) leaves C04's total mass and total linear
    momentum unchanged, and the centre-of-mass diagnostic evaluated AFTER the merger satisfies the defining equations
-   of the centre of mass of the set BEFORE it; for every array, pair, removal discipline and N_active *)
+   of the centre of mass of the set BEFORE it; for every array, pair, removal discipline and N_active, for pairs of
+   non-zero total mass and for two massless particles (mass_ok; /repo 3e11a58 made the latter finite) *)
 Theorem C04_merge_conserves_mass_momentum_com :
   forall (flag : M13.particle R -> M13.particle R) t cb ps p1 p2 a b keep nact,
   M13.zth ps p1 = Some a -> M13.zth ps p2 = Some b -> p1 <> p2 ->
-  M13.plc a <> t -> M13.plc b <> t -> M13.pm a + M13.pm b <> 0 ->
+  M13.plc a <> t -> M13.plc b <> t -> C13.Resolve.mass_ok a b ->
   exists ps' ps'' nact',
     fst (M13.merge RNum t cb ps p1 p2) = ps' /\
     M13.remove_particle flag false keep nact ps' (C13.Resolve.gone_ix p1 p2) = (ps'', nact', true) /\
